@@ -517,4 +517,15 @@ example : (run (init (some 3) 1)
      Op.advance 0, Op.getValue 0, Op.advance 1, Op.getValue 1]).regs.map (fun r => (r.got, r.start))
     = [([1, 2], 0), ([2], 1)] := by decide
 
+/-- the other consumer spellings are the same steps: `if (!sub.next())`, `generator_iterator` (`begin()` = the first
+`next()`, `++it` / `it++` = the following ones, `it != end()` = "the last `next()` said true", `*it` = `value()`) and a
+range-for loop, i.e. `next()` after `next()`.  Here a range-for consumer reads 1 and 2, parks, is woken by the publish of 3,
+reads it, parks again, and leaves the loop when the publisher closes. -/
+example : (run (init (some 3) 1)
+    [Op.subRecent 0 Mode.all, Op.push [1, 2],
+     Op.advance 0, Op.getValue 0, Op.advance 0, Op.getValue 0, Op.advance 0, Op.advanceSuspend 0,
+     Op.push [3], Op.relock, Op.getValue 0, Op.advance 0, Op.advanceSuspend 0,
+     Op.close, Op.relock, Op.getValue 0]).regs.map (fun r => (r.got, r.gotPos, r.phase))
+    = [([1, 2, 3], [1, 2, 3], Phase.done)] := by decide
+
 end Cocls.Pub
